@@ -366,6 +366,8 @@ type Gen struct {
 	// kind only in case (T5 / t5).
 	CaseTwins bool
 	issued    map[string][]string
+	// GoExtends allows extensions that carry the @go directive.
+	GoExtends bool
 }
 
 func (g *Gen) fresh(prefix string) string {
@@ -833,6 +835,28 @@ func (g *Gen) Poison() Fragment {
 			i := g.T.Draw(len(vs))
 			return Fragment{Kind: fmt.Sprintf("poison:undefined_ref:%d", i), Text: vs[i]}
 		case 2:
+			if g.GoExtends && obj != nil && g.T.Bool(1, 3) {
+				// an extension that carries the @go directive (binding of a Go type),
+				// applied, then the document fails in validation: whatever the
+				// extension did to the binding has to be undone with the load
+				var objs []*TInfo
+				for _, o := range g.all("object") {
+					has := false
+					for _, d := range o.Dirs {
+						if d == "go" {
+							has = true
+						}
+					}
+					if !has && g.St.ByName[o.Name] != nil {
+						objs = append(objs, o)
+					}
+				}
+				if len(objs) > 0 {
+					o := objs[g.T.Draw(len(objs))]
+					return Fragment{Kind: "poison:failed_extend:go_directive_then_invalid", Mutates: true,
+						Text: fmt.Sprintf("extend type %s @go(type: \"Alt%d\") {\n}\ntype %s {\n}\n", o.Name, g.T.Draw(9), g.fresh("T"))}
+				}
+			}
 			switch g.T.Draw(7) {
 			case 0:
 				return Fragment{Kind: "poison:failed_extend:unknown_target", Text: "extend type " + g.fresh("Nope") + " {\n  a: Int\n}\n"}
